@@ -228,6 +228,7 @@ def handle (st : DState) (line : String) : DState × String :=
       | some ls => (st, " ; ".intercalate ((parseStream 1 (ls.map (·.map Char.ofNat))).map StreamOut.show))
       | none => (st, "bad-op")
     | "conc" => (st, runConc args)
+    | "disc" => (st, runDisc args)
     | "preset" => ({ st with p := {} }, "ok")
     | "pfeed" => match parseInts args with
       | some bs => let (p, o) := pstep st.p (.feed bs); ({ st with p := p }, o.show)
